@@ -259,6 +259,7 @@ func execHistory(o *out, f [][]int) []int {
 		m.Raw = prev[:prevlen:len(prev)]
 	}
 	var obs []int
+	stale := false // after a failed Decode: attribute views of the old message over the new bytes
 	synced := false // struct and Raw are in step (the states C03 speaks about)
 	// what the current content inherited from a decoded input that the decoder tolerates
 	taintPad, taintTrail := false, false
@@ -297,6 +298,7 @@ func execHistory(o *out, f [][]int) []int {
 			return []int{2}
 		case err != nil:
 			obs = append(obs, 1)
+			stale = true
 		default:
 			obs = append(obs, 0)
 			synced = true
@@ -388,11 +390,21 @@ func execHistory(o *out, f [][]int) []int {
 		if err != nil {
 			st = 1
 		}
+		switch opf[0] {
+		case 10:
+			stale = err != nil
+		case 1, 9:
+			stale = false
+		}
 		cur := serMsg(m)
-		obs = append(obs, st, errKind(err), len(m.Raw), digest(cur))
+		dg := digest(cur)
+		if stale {
+			dg = 0
+		}
+		obs = append(obs, st, errKind(err), len(m.Raw), dg)
 		// C09 monitor: a refusing setter leaves the message exactly as it was
 		if isSetter && err != nil && fmt.Sprint(before) != fmt.Sprint(cur) {
-			o.fail("setter-not-atomic", fmt.Sprintf("%s step=%d", caseLine(), i))
+			o.failFor("C09", "setter-not-atomic", fmt.Sprintf("%s step=%d", caseLine(), i))
 		}
 		// C08 monitor: data passed in was copied — overwriting it must not change the message
 		if err == nil && len(bufs) > 0 {
@@ -402,7 +414,7 @@ func execHistory(o *out, f [][]int) []int {
 				}
 			}
 			if fmt.Sprint(serMsg(m)) != fmt.Sprint(cur) {
-				o.fail("copy-semantics", fmt.Sprintf("%s step=%d", caseLine(), i))
+				o.failFor("C08", "copy-semantics", fmt.Sprintf("%s step=%d", caseLine(), i))
 			}
 			for _, b := range bufs {
 				for k := range b {
@@ -411,12 +423,15 @@ func execHistory(o *out, f [][]int) []int {
 			}
 		}
 		// C03 oracle (B): in synchronised states whose size fits the 16-bit length field
-		if synced && err == nil && m.Length <= 65535 {
+		if (activeProp == "" || activeProp == "C03") && synced && err == nil && m.Length <= 65535 {
 			if why := wellFormed(m); why != "" {
 				o.fail("wellformed:"+why, fmt.Sprintf("%s step=%d%s", caseLine(), i, taint()))
 			}
 			o.count("wellformed-checked")
 		}
+	}
+	if stale {
+		return obs
 	}
 	return append(obs, serMsg(m)...)
 }
